@@ -37,24 +37,23 @@ if _role == 'child' and ('stderr_cut' in _env or 'stderr_pre' in _env
         def write(self, s):
             cut = _env.get('stderr_cut')
             data = s.encode('utf-8', 'surrogateescape')
-            if cut is not None:
-                room = cut - self._n
-                if room <= 0:
-                    self._n += len(data)
-                    self._maybe_die()
-                    return len(s)
-                out = data[:room]
-            else:
-                out = data
+            if cut is None:
+                os.write(2, data)
+                return len(s)
+            room = max(0, cut - self._n)
             self._n += len(data)
-            os.write(2, out)
-            self._maybe_die()
+            if room:
+                os.write(2, data[:room])
+            if len(data) > room:
+                # bytes of the report are being dropped: the report IS cut
+                if not self._cut_logged:
+                    self._cut_logged = True
+                    _log.emit('ReportCut', at=cut)
+                if _env.get('die_at_cut'):
+                    worldlib.crash(_env['die_at_cut'])
             return len(s)
 
-        def _maybe_die(self):
-            cut = _env.get('stderr_cut')
-            if cut is not None and self._n >= cut and _env.get('die_at_cut'):
-                worldlib.crash(_env['die_at_cut'])
+        _cut_logged = False
 
         def flush(self):
             pass
